@@ -61,6 +61,22 @@ pub struct W<T> {
     z: String,
 }
 
+/// field names that are not identifiers (serde `rename`): reserved characters, an escape look-alike, a space, non-ASCII
+#[derive(Serialize, Deserialize, PartialEq, Debug, Clone)]
+pub struct Renamed {
+    #[serde(rename = "q&a")]
+    qa: String,
+    #[serde(rename = "price=net")]
+    price: i32,
+    #[serde(rename = "100%25")]
+    pct: String,
+    #[serde(rename = "a b")]
+    sp: String,
+    #[serde(rename = "naïve+")]
+    nv: String,
+}
+const RENAMED_FIELDS: [&str; 5] = ["q&a", "price=net", "100%25", "a b", "naïve+"];
+
 #[derive(Serialize, Deserialize, PartialEq, Debug, Clone)]
 pub struct Scalars {
     b: bool,
@@ -160,6 +176,8 @@ pub enum Val {
     Scalars(ScalarM),
     /// a `BTreeMap<String, String>` (later duplicates of a key are dropped)
     Map(Vec<(String, String)>),
+    /// the struct whose fields are renamed to non-identifiers
+    Renamed { qa: String, price: i32, pct: String, sp: String, nv: String },
 }
 
 #[derive(Debug, Clone, Serialize, Deserialize, PartialEq)]
@@ -974,6 +992,7 @@ fn val() -> impl Strategy<Value = Val> {
         14 => (any::<u8>(), field(), ustr(0)).prop_map(|(a, x, z)| Val::One { a, x, z }),
         3 => scalars().prop_map(Val::Scalars),
         3 => vec((prop_oneof![30 => ustr(1), 1 => Just(String::new())], ustr(0)), 0..=5).prop_map(Val::Map),
+        1 => (ustr(0), ints!(i32), ustr(0), ustr(0), ustr(0)).prop_map(|(qa, price, pct, sp, nv)| Val::Renamed { qa, price, pct, sp, nv }),
     ]
 }
 fn style() -> impl Strategy<Value = Style> {
@@ -987,7 +1006,7 @@ fn style() -> impl Strategy<Value = Style> {
 impl Property for C09 {
     type Case = Case;
     const ID: &'static str = "C09";
-    const RULE: &'static str = "generated: (a) Roundtrip(value) and (b) Decode(value, encoder choices). Values: one field of a catalogue type between two neighbours (`W<T> {a: u8, x: T, z: String}`, T ∈ bool, i8…u64, i128/u128, f32, f64, char, String, Option<String|i64|bool|char|f64|newtype>, unit enums plain / kebab-case / snake_case, Option<enum>, newtypes over u64 and String, (), Vec<String>, Vec<i64>, tuples (String,), (String,i32), (String,String), (String,i64,String,u8,String); sequences of 0, 1, 2, 5 elements), a 21-field struct of all scalar types together, or a BTreeMap<String,String>; integers with MIN/MAX/0/±1 bias, floats over all bit patterns (one NaN), strings/chars/keys over all Unicode with reserved characters over-represented. (a) to_string then from_bytes must give the value back (compared through Debug: floats by shortest round-tripping text, all NaNs alike) whenever to_string returns Ok. (b) an independent encoder writes the value's pairs `k=v` (per character: raw when RFC 3986 allows it in a query and it is not `&`, `=`, `%` or — inside a sequence element — `,`; otherwise %XX in either hex case; number / bool texts stay raw except in a 10 % sub-stream `escaped-literals`; a pair's escape choices depend on its key, not on its position), permutes them and inserts 0–3 unknown pairs; from_bytes into the type must give the value, and `GET /q?<text>` through the real parser and router must make `req.query.iter()` yield exactly the generated pairs in wire order (`+` stays `+`). Failure keys are root-cause classes, refined by re-decoding parts of the failing text: `plus-not-kept-literal` / `escaped-literal` / `field-order` / `unknown-pairs` when undoing exactly that repairs the outcome; else the field type; for sequences the element class when that element's own wire form fails as a one-element Vec, else the length class; for enums `escaped-variant-name` when the wire form of the variant contains an escape. Non-trivial = a string/char/key needing escaping, a sequence with ≥ 2 elements, a boundary number, or a permuted/extended encoding; distinct by case.";
+    const RULE: &'static str = "generated: (a) Roundtrip(value) and (b) Decode(value, encoder choices). Values: one field of a catalogue type between two neighbours (`W<T> {a: u8, x: T, z: String}`, T ∈ bool, i8…u64, i128/u128, f32, f64, char, String, Option<String|i64|bool|char|f64|newtype>, unit enums plain / kebab-case / snake_case, Option<enum>, newtypes over u64 and String, (), Vec<String>, Vec<i64>, tuples (String,), (String,i32), (String,String), (String,i64,String,u8,String); sequences of 0, 1, 2, 5 elements), a 21-field struct of all scalar types together, a struct whose fields are renamed to non-identifiers (`q&a`, `price=net`, `100%25`, `a b`, `naïve+`), or a BTreeMap<String,String>; integers with MIN/MAX/0/±1 bias, floats over all bit patterns (one NaN), strings/chars/keys over all Unicode with reserved characters over-represented. (a) to_string then from_bytes must give the value back (compared through Debug: floats by shortest round-tripping text, all NaNs alike) whenever to_string returns Ok. (b) an independent encoder writes the value's pairs `k=v` (per character: raw when RFC 3986 allows it in a query and it is not `&`, `=`, `%` or — inside a sequence element — `,`; otherwise %XX in either hex case; number / bool texts stay raw except in a 10 % sub-stream `escaped-literals`; a pair's escape choices depend on its key, not on its position), permutes them and inserts 0–3 unknown pairs; from_bytes into the type must give the value, and `GET /q?<text>` through the real parser and router must make `req.query.iter()` yield exactly the generated pairs in wire order (`+` stays `+`). Failure keys are root-cause classes, refined by re-decoding parts of the failing text: `plus-not-kept-literal` / `escaped-literal` / `field-order` / `unknown-pairs` when undoing exactly that repairs the outcome; else the field type; for sequences the element class when that element's own wire form fails as a one-element Vec, else the length class; for enums `escaped-variant-name` when the wire form of the variant contains an escape. Non-trivial = a string/char/key needing escaping, a sequence with ≥ 2 elements, a boundary number, or a permuted/extended encoding; distinct by case.";
     const ASSUMPTIONS: &'static [&'static str] = &[
         "§5.2: the empty text means None / empty sequence — Some(\"\") and a one-element sequence holding the empty string are never checked (replaced and counted under `excluded`); empty elements of longer sequences are checked",
         "128-bit integers: the serializer refuses them (serde default); counted under the label `serializer-refused`, no decoding is demanded",
@@ -1003,7 +1022,7 @@ impl Property for C09 {
         C09 { router: VerifRouter::new(o) }
     }
     fn n_cases(&self, tier: Tier) -> u64 {
-        tier.pick(400_000, 8_000_000)
+        tier.pick(1_200_000, 8_000_000)
     }
     fn chunk(&self, _tier: Tier) -> u64 {
         10_000
@@ -1112,6 +1131,34 @@ impl Property for C09 {
                             obs.fail(format!("{mode}:scalars:{}", pi.key()), d);
                         } else {
                             obs.fail(format!("{mode}:scalars:combination"), format!("every field survives alone, the struct does not: {d}"));
+                        }
+                    }
+                }
+            }
+            Val::Renamed { qa, price, pct, sp, nv } => {
+                obs.label("struct:renamed-fields");
+                obs.nontrivial = true;
+                let real = Renamed { qa: qa.clone(), price: *price, pct: pct.clone(), sp: sp.clone(), nv: nv.clone() };
+                match style {
+                    None => {
+                        let out = roundtrip(&real);
+                        if let Out::SerRefused(e) = &out {
+                            obs.fail("roundtrip:renamed-fields:serializer-refused", format!("{real:?}: {e}"));
+                        } else if !out.ok() {
+                            let d = describe(&real, &out);
+                            match &out {
+                                Out::Panicked(_, pi) => obs.fail(format!("roundtrip:renamed-fields:{}", pi.key()), d),
+                                _ => obs.fail("roundtrip:renamed-fields", format!("field names {RENAMED_FIELDS:?}: {d}")),
+                            }
+                        }
+                    }
+                    Some(st) => {
+                        let pairs = vec![Pair::text("q&a", qa.clone()), Pair::literal("price=net", price.to_string()), Pair::text("100%25", pct.clone()), Pair::text("a b", sp.clone()), Pair::text("naïve+", nv.clone())];
+                        if let Some((out, d, _)) = self.decode_eval(&real, &pairs, &RENAMED_FIELDS, st, true, obs) {
+                            match &out {
+                                Out::Panicked(_, pi) => obs.fail(format!("decode:renamed-fields:{}", pi.key()), d),
+                                _ => obs.fail("decode:renamed-fields", format!("field names {RENAMED_FIELDS:?}: {d}")),
+                            }
                         }
                     }
                 }
